@@ -148,6 +148,13 @@ func existences(tier string) []Expr {
 		{Text: "!@.a", Ast: "(not (exists (cur (name a))))", Kind: "not"},
 		{Text: "!$.a", Ast: "(not (exists (root (name a))))", RootOp: true, Kind: "not"},
 	}
+	out = append(out,
+		Expr{Text: "@[?(@ == $.b)]", Ast: "(exists (cur (filter (cmp == (cur) (root (name b))))))", RootOp: true, Kind: "exists"},
+		Expr{Text: "@.a[?(@.a == $.a)]", Ast: "(exists (cur (name a) (filter (cmp == (cur (name a)) (root (name a))))))", RootOp: true, Kind: "exists"},
+		Expr{Text: "$[?(@.a)]", Ast: "(exists (root (filter (exists (cur (name a))))))", RootOp: true, Kind: "exists"},
+		Expr{Text: "(@.a == 'x')", Ast: "(cmp == (cur (name a)) (str x))", Kind: "cmp"},
+		Expr{Text: "(@.a == 7.5e1) && (@.b =~ /x/)", Ast: "(and (cmp == (cur (name a)) (numh lit)) (regex (cur (name b)) \"x\"))", Holes: "7.5e1=lit:f", Kind: "and"},
+	)
 	if tier == "thorough" {
 		out = append(out,
 			Expr{Text: "@", Ast: "(exists (cur))", Kind: "exists"},
